@@ -207,7 +207,11 @@ class ProcessDiameterMessage:
 
     @staticmethod
     def is_valid_disconnect_cause_avp(avp):
-        if (avp.code == DISCONNECT_CAUSE_AVP_CODE) and (avp.data == DISCONNECT_CAUSE_REBOOTING):
+        #: Every cause RFC 6733 defines is a valid reason to disconnect.
+        if (avp.code == DISCONNECT_CAUSE_AVP_CODE) and \
+                (avp.data in (DISCONNECT_CAUSE_REBOOTING,
+                              DISCONNECT_CAUSE_BUSY,
+                              DISCONNECT_CAUSE_DO_NOT_WANT_TO_TALK_TO_YOU)):
             return True
         return False
 
